@@ -74,10 +74,27 @@ def tlc_cfg(ctx, name, text, label, timeout_s=1200, expect_violation=None, **kw)
     return res
 
 
+def run_probe_refine(ctx):
+    """the pinned original does NOT refine Pipe.tla (an oversize update parked in the overflow queue is overtaken)"""
+    from lib.tlcrun import work_dir
+    wd = work_dir("c05-probe-refine")
+    p = os.path.join(wd, "gen.cfg")
+    open(p, "w").write(cfg_text(spec="Spec", live="", invariants=[], properties=("PipeRefinement",), fo=False, fz=False))
+    res = run_tlc("Batcher", p, "c05-probe-refine", timeout_s=1800)
+    require_ok(res, "probe refinement")
+    ctx.add_tlc(res, "probe: the pinned original pipeline does not refine Pipe.tla")
+    if res.ok:
+        raise MachineryError("probe: expected the pinned original to violate PipeRefinement")
+    return res
+
+
 def model_part(ctx):
     cur = "current code (FixedOrder=%s, FixedOversize=%s)" % (VARIANT["FixedOrder"], VARIANT["FixedOversize"])
     acts = ["PCheck", "PPut", "PWait", "CFirstGet", "CWinGet", "CWinToOverflow", "CWinClose", "COvGet",
             "CApiOk", "CApiFail", "CRel", "CFailBatch", "CFailOv", "CFailMain", "Stop"]
+    tlc_cfg(ctx, "c05-refine", cfg_text(spec="Spec", live="", invariants=[], properties=("PipeRefinement",)),
+            f"refinement, {cur}: Batcher.tla implements Pipe.tla (the FIFO + Flush(k) + FlushFail abstraction Durable.tla uses for the "
+            "pipeline): every step of the queues / overflow / window / failure path is a Put, a Flush of a prefix, a Fail, or invisible")
     r = tlc_cfg(ctx, "c05-cur-safety", cfg_text(spec="Spec", live="", symmetry=True),
                 f"exhaustive safety, {cur}: 2 producers x 2 calls, sizes {{1,3}}, MaxOps=2, MaxBytes=2, API may fail (producer symmetry)")
     if r.ok:
@@ -94,6 +111,8 @@ def model_part(ctx):
     # regression of the model: on the pinned original the two historical deviations must be reachable
     tlc_cfg(ctx, "c05-probe-late", cfg_text(spec="Spec", fo=False, fz=False, invariants=["NeverLatePut"], properties=(), live=""),
             "probe: pinned original reaches the put-after-drain state", expect_violation="NeverLatePut")
+    if not ctx.quick:
+        r = run_probe_refine(ctx)
     tlc_cfg(ctx, "c05-probe-over", cfg_text(spec="Spec", fo=False, fz=False, invariants=["NeverOversizeParked"], properties=(), live=""),
             "probe: pinned original parks an oversize update", expect_violation="NeverOversizeParked")
 
